@@ -24,7 +24,11 @@ type epochInput struct {
 	FitRule  int               `json:"fitness_rule"`
 	Parallel bool              `json:"parallel"`
 	Random   bool              `json:"random_population"` // NewPopulationRandom instead of a start genome
-	PopText  string            `json:"population_file,omitempty"` // ReadPopulation of this text instead of a start genome
+	// ShrinkPop > 0: after the population is built the PopSize option is lowered by this much (the caller changed
+	// its mind): the turnover may refuse (error) - that is not checked - but it must not succeed wrongly
+	ShrinkPop int    `json:"shrink_pop_size_option,omitempty"`
+	ShrinkAt  int    `json:"shrink_before_epoch,omitempty"` // the epoch index before which the option is lowered
+	PopText   string `json:"population_file,omitempty"`     // ReadPopulation of this text instead of a start genome
 }
 
 func epochOptions(r *rand.Rand, maxPop int) *neat.Options {
@@ -75,6 +79,9 @@ func fitnessFor(rule, epoch, i int, g *genetics.Genome) float64 {
 		// stagnating: independent of the epoch and of the genome, so the record of the first epoch is
 		// never beaten and delta coding fires every DropOffAge+5 epochs
 		return float64(1+(i*7)%13) + float64(i)*1e-4
+	case 11:
+		// ordinary ratios at a tiny scale (normal floats around 2^-58): quotas depend on ratios only
+		return math.Ldexp(float64(1+(i*7+epoch)%13)+float64(len(g.Genes))*0.01+float64(i)*1e-4, -60)
 	case 10:
 		// steady lineages: the first gene's mutation number is 10*lineage + size of the lineage's species; every
 		// member of a species of that size scores its size, so after sharing everybody has 1.0 and a species expects
@@ -150,7 +157,8 @@ type popOracle struct {
 }
 
 func newPopOracle(prop string, bad func(key, what string)) *popOracle {
-	return &popOracle{prop: prop, bad: bad, registry: map[int64]string{}, nodeRoles: map[int]network.NodeNeuronType{}, usedSp: map[int]bool{}, seenSp: map[int]bool{}}
+	return &popOracle{prop: prop, bad: bad, registry: map[int64]string{}, nodeRoles: map[int]network.NodeNeuronType{}, usedSp: map[int]bool{}, seenSp: map[int]bool{},
+		maxInnov: math.MinInt64, maxNode: math.MinInt32} // innovation numbers may be negative
 }
 
 // afterEpoch checks the C01/C02/C03 clauses on the population just produced
